@@ -74,6 +74,21 @@ pub fn c03(out: &mut dyn Write, tier: &str, rng: &mut Rng, st: &mut Stats) {
             }
         }
     }
+    // every function of three variables against its own complement and against itself, under every connective
+    {
+        let env: BDDEnv<usize> = BDDEnv::new();
+        for tt in 0..256u64 {
+            let f = intern_fresh(&env, &from_tt(tt, &[0, 1, 2]));
+            let nf = env.not(Rc::clone(&f));
+            for op in BIN_OPS.iter() {
+                for (a, b) in [(Rc::clone(&f), Rc::clone(&nf)), (Rc::clone(&nf), Rc::clone(&f)), (Rc::clone(&f), Rc::clone(&f))] {
+                    let r = bin(&env, op, Rc::clone(&a), Rc::clone(&b));
+                    writeln!(out, "C03|bin|{}|{}|{}|{}|{};{}", op, show(&a), show(&b), show(&r), show(&a), show(&b)).unwrap();
+                    st.hit("op.function-against-its-complement");
+                }
+            }
+        }
+    }
     // an environment over NAMED symbols in which different symbols print alike (the same name with different ids) and
     // one symbol has several spellings: var and the connectives go by the id alone
     {
